@@ -146,6 +146,8 @@ def run(ctx, tier, seed, scale=1.0):
                    "fault_kind": p["kind"], "got": f[:2], "call_stack": f[2:]}
             ctx.count("fault:" + p["kind"])
             ctx.count("depth:%d" % p["depth"])
+            if any("${" in p["fields"][i + 1] for i in range(2, len(p["fields"]) - 1, 2)):
+                ctx.count("programs-with-interpolated-string")
             if f[0] != "eval_error":
                 ctx.violation("no-eval_error:%s" % p["kind"], wit)
                 continue
@@ -176,8 +178,9 @@ def run(ctx, tier, seed, scale=1.0):
             ctx.sample({"chunks": progs[0]["fields"][2:], "fault": progs[0]["fault"], "sites": progs[0]["sites"]})
     finally:
         shutil.rmtree(usedir, ignore_errors=True)
+    ctx.min_events["programs-with-interpolated-string"] = 20
     ctx.rule = ("one case = functions in a call chain of depth 1-6 (def / global lambda; call-site forms: bare, declaration, return, operand, condition, "
                 "assignment) spread over 1-3 chunks (eval with distinct file names, or use()d files; LF or CRLF; blank lines, // # /* */ comments, spaces and "
-                "tabs) with one fault (unresolvable identifier in 8 expression contexts, unknown function, no matching overload, wrong arity); positions come "
+                "tabs, interpolated strings that re-enter the parser) with one fault (unresolvable identifier in 8 expression contexts, unknown function, no matching overload, wrong arity); positions come "
                 "from the generator's own line/column bookkeeping; every case is non-trivial; distinct by source")
     ctx.assumptions += ["call sites begin with an identifier (the property's restriction); method-call sugar and calls nested in argument lists are not generated"]
